@@ -71,9 +71,10 @@ structure State where
   snapClosed : List Nat := []
   /-- oldest → newest (FileStore.files sorted by name = generation, sequence) -/
   files : List TsmFile := []
-  /-- ascending ids; when `walOpen`, the last one is the current segment -/
-  wal : List Segment := []
-  walOpen : Bool := false
+  /-- closed WAL segment files, ascending ids -/
+  walClosed : List Segment := []
+  /-- the current segment (`WAL.currentSegmentWriter`), if any -/
+  walCur : Option Segment := none
   nextSeg : Nat := 1
   /-- the previous op appended a WAL record (the one a torn crash may lose) -/
   lastRec : Bool := false
@@ -107,30 +108,34 @@ def State.read (s : State) (k : Key) (lo hi : Int) (asc : Bool) : List Pt :=
 
 /-! ### WAL -/
 
-/-- segments and next id after appending a record (`WAL.writeToLog`: rollSegment opens a new
-    segment when there is no current writer) -/
-def walAppendSegs (wal : List Segment) (isOpen : Bool) (next : Nat) (r : WalEntry) : List Segment × Nat :=
-  if isOpen then
-    match wal.reverse with
-    | [] => ([⟨next, [r]⟩], next + 1)
-    | cur :: older => ((⟨cur.id, cur.recs ++ [r]⟩ :: older).reverse, next)
-  else (wal ++ [⟨next, [r]⟩], next + 1)
+/-- all segment files, ascending ids -/
+def State.wal (s : State) : List Segment := s.walClosed ++ s.walCur.toList
+
+/-- current segment and next id after appending a record (`WAL.writeToLog`: rollSegment opens
+    a new segment when there is no current writer) -/
+def appendCur (cur : Option Segment) (next : Nat) (r : WalEntry) : Segment × Nat :=
+  match cur with
+  | some c => (⟨c.id, c.recs ++ [r]⟩, next)
+  | none => (⟨next, [r]⟩, next + 1)
 
 def walAppend (s : State) (r : WalEntry) : State :=
-  { s with wal := (walAppendSegs s.wal s.walOpen s.nextSeg r).1, walOpen := true,
-           nextSeg := (walAppendSegs s.wal s.walOpen s.nextSeg r).2 }
+  { s with walCur := some (appendCur s.walCur s.nextSeg r).1, nextSeg := (appendCur s.walCur s.nextSeg r).2 }
 
-def walCurEmpty (s : State) : Bool :=
-  s.walOpen && (match s.wal.reverse with | [] => false | cur :: _ => cur.recs.isEmpty)
+/-- does `WAL.CloseSegment` roll?  (not when the current segment is empty) -/
+def rolls (cur : Option Segment) : Bool :=
+  match cur with
+  | some c => !c.recs.isEmpty
+  | none => true
 
-/-- `WAL.CloseSegment`: a new (empty) current segment unless the current one is empty -/
+/-- `WAL.CloseSegment`: close the current segment and open a new (empty) one — unless the
+    current one is empty -/
 def walCloseSegment (s : State) : State :=
-  { s with wal := if walCurEmpty s then s.wal else s.wal ++ [⟨s.nextSeg, []⟩], walOpen := true,
-           nextSeg := if walCurEmpty s then s.nextSeg else s.nextSeg + 1 }
+  { s with walClosed := if rolls s.walCur then s.walClosed ++ s.walCur.toList else s.walClosed,
+           walCur := if rolls s.walCur then some ⟨s.nextSeg, []⟩ else s.walCur,
+           nextSeg := if rolls s.walCur then s.nextSeg + 1 else s.nextSeg }
 
 /-- `WAL.ClosedSegments`: every segment file except the current one -/
-def walClosedIds (s : State) : List Nat :=
-  (if s.walOpen then s.wal.dropLast else s.wal).map (·.id)
+def walClosedIds (s : State) : List Nat := s.walClosed.map (·.id)
 
 def applyWalEntry (c : Log) : WalEntry → Log
   | .write es => c ++ es
@@ -140,11 +145,10 @@ def applyWalEntry (c : Log) : WalEntry → Log
 def replay (segs : List Segment) : Log :=
   (segs.flatMap (·.recs)).foldl applyWalEntry []
 
-/-- lose the last record of the last segment (torn tail dropped by the loader) -/
-def dropLastRec (segs : List Segment) : List Segment :=
-  match segs.reverse with
-  | [] => []
-  | cur :: older => (⟨cur.id, cur.recs.dropLast⟩ :: older).reverse
+/-- lose the last record of the current segment (torn tail dropped by the loader) -/
+def dropLastRec : Option Segment → Option Segment
+  | some c => some ⟨c.id, c.recs.dropLast⟩
+  | none => none
 
 /-! ### steps -/
 
@@ -215,7 +219,8 @@ def stepSnapStep (s : State) : State :=
     { s with phase := .replaced, files := s.files ++ s.snapTmp.toList, snapTmp := none, lastRec := false }
   | .replaced => { s with phase := .cleared, snap := [], lastRec := false }
   | .cleared =>
-    { s with phase := .idle, wal := s.wal.filter (fun g => !s.snapClosed.contains g.id), snapClosed := [], lastRec := false }
+    { s with phase := .idle, walClosed := s.walClosed.filter (fun g => !s.snapClosed.contains g.id),
+             snapClosed := [], lastRec := false }
 
 def Phase.rank : Phase → Nat
   | .idle => 0 | .begun => 1 | .written => 2 | .replaced => 3 | .cleared => 4
@@ -250,14 +255,16 @@ def compactSetFiles (fs : List TsmFile) (idxs : List Nat) : List TsmFile :=
 
 def validGroup (fs : List TsmFile) (i j : Nat) : Bool := decide (i ≤ j) && decide (j < fs.length)
 
-/-- `Engine.Open` on the durable image of `s`, the WAL being `segs` -/
+/-- `Engine.Open` on the durable image of `s`, the WAL segment files being `segs`:
+    WAL.Open (an empty last segment is removed; otherwise the last segment becomes the current
+    one), FileStore.Open, CacheLoader.Load -/
 def openWith (s : State) (fs : List TsmFile) (segs : List Segment) : State :=
   let segs' := segs.filter fun g => !g.recs.isEmpty
   { hot := replay segs', snap := [], phase := .idle, snapTmp := none, snapClosed := [],
-    files := fs, wal := segs', walOpen := !segs'.isEmpty, nextSeg := s.nextSeg, lastRec := false }
+    files := fs, walClosed := segs'.dropLast, walCur := segs'.getLast?, nextSeg := s.nextSeg, lastRec := false }
 
 def stepCrash (s : State) (tear : Bool) : State :=
-  openWith s s.files (if tear && s.lastRec then dropLastRec s.wal else s.wal)
+  openWith s s.files (s.walClosed ++ (if tear && s.lastRec then dropLastRec s.walCur else s.walCur).toList)
 
 /-- the directory image at the n-th hit of a point inside compaction + FileStore.replace -/
 def compactCrashFiles (fs : List TsmFile) (i j : Nat) (pt : CPoint) (n : Nat) : List TsmFile :=
